@@ -241,8 +241,11 @@ def leaves_with_parent(term):
       out.append((t[1], parent))
       return
     if t[0] == "app":
+      # shape-only operations do not touch values: the enclosing
+      # application stays the one above them
+      shape_only = t[1] in ("expand_dims", "reshape", "tile", "repeat")
       for s in t[3]:
-        walk(s, t[1])
+        walk(s, parent if shape_only else t[1])
       return
     for s in t[1:]:
       if isinstance(s, tuple):
